@@ -368,4 +368,94 @@ theorem seqArrow_set (f : F) (c : Coll) (h : c.isSugar = false) :
   | one b => cases b <;> first | rfl | simp [Coll.isSugar] at h
   | _ => rfl
 
+/-! ## what the builder returns is well-formed (so it can be called again) -/
+
+theorem keys_dictPut (m : List (V × List V)) (k v : V) :
+    (Impl.dictPut m k v).map (·.1) = if k ∈ m.map (·.1) then m.map (·.1) else m.map (·.1) ++ [k] := by
+  induction m with
+  | nil => simp [Impl.dictPut]
+  | cons e r ih =>
+    obtain ⟨k', vs⟩ := e
+    unfold Impl.dictPut
+    by_cases h : k' = k
+    · subst h; simp
+    · have h' : ¬ k = k' := fun e => h e.symm
+      simp only [h, if_false, List.map_cons, ih, List.mem_cons, h', false_or]
+      split <;> simp
+
+theorem nodup_dictPut (m : List (V × List V)) (k v : V) (h : (m.map (·.1)).Nodup) :
+    ((Impl.dictPut m k v).map (·.1)).Nodup := by
+  rw [keys_dictPut]
+  split
+  · exact h
+  · rename_i hk
+    rw [List.nodup_append]
+    refine ⟨h, by simp, ?_⟩
+    intro a ha b hb
+    simp only [List.mem_singleton] at hb
+    subst hb
+    intro e; subst e; exact hk ha
+
+theorem nodup_newDict (es : List (V × V)) : ((Impl.newDict es).map (·.1)).Nodup := by
+  unfold Impl.newDict
+  suffices h : ∀ (m : List (V × List V)), (m.map (·.1)).Nodup →
+      ((es.foldl (fun m e => Impl.dictPut m e.1 e.2) m).map (·.1)).Nodup from h [] (by simp)
+  induction es with
+  | nil => intro m hm; exact hm
+  | cons e r ih => intro m hm; exact ih _ (nodup_dictPut m e.1 e.2 hm)
+
+theorem classify_other {x : V} (h : classify x = .other) : isPair x = false := by
+  rcases classify_cases x with ⟨_, _, h1, _⟩ | ⟨_, _, h1, _⟩ | ⟨_, _, h1, _⟩ | ⟨_, _, h1, _⟩ | ⟨_, _, _, h1, _⟩ | ⟨_, h2⟩
+  · rw [h1] at h; cases h
+  · rw [h1] at h; cases h
+  · rw [h1] at h; cases h
+  · rw [h1] at h; cases h
+  · rw [h1] at h; cases h
+  · simp [isPair, h2]
+
+theorem wf_ofBuckets (bs : List Bucket) (h : bs.all Bucket.wf = true) : (Impl.ofBuckets bs).wf = true := by
+  cases bs with
+  | nil => rfl
+  | cons b r =>
+    cases r with
+    | nil => simpa [Impl.ofBuckets, Coll.wf] using h
+    | cons b' r' => exact h
+
+theorem all_wf_append (a b : List Bucket) :
+    (a ++ b).all Bucket.wf = true ↔ a.all Bucket.wf = true ∧ b.all Bucket.wf = true := by
+  simp [List.all_append]
+
+/-- SetBuilder.Finish establishes the invariants `call_refines` asks for -/
+theorem wf_build (xs : List V) : (Impl.build xs).wf = true := by
+  apply wf_ofBuckets
+  simp only [Impl.buckets, all_wf_append]
+  refine ⟨?_, ?_, ?_, ?_, ?_, ?_⟩
+  · split <;> simp [Impl.asString, Bucket.wf]
+  · split <;> simp [Impl.asBytes, Bucket.wf]
+  · split <;> simp [Impl.asArray, Bucket.wf]
+  · split
+    · rfl
+    · simp only [List.all_cons, List.all_nil, Bool.and_true, Bucket.wf, decide_eq_true_eq]
+      exact nodup_newDict _
+  · simp only [Impl.relBuckets, List.all_map, List.all_eq_true, Function.comp_apply, Bucket.wf,
+      decide_eq_true_eq, Impl.relNames, mem_dedup, List.mem_map]
+    rintro n ⟨p, hp, rfl⟩
+    obtain ⟨x, _, hc⟩ := (mem_pairsOf xs p).1 hp
+    exact (classify_pair hc).2
+  · split
+    · rfl
+    · split
+      · rfl
+      · rename_i hne _
+        simp only [List.all_cons, List.all_nil, Bool.and_true, Bucket.wf, Bool.and_eq_true,
+          Bool.not_eq_true', List.isEmpty_eq_false_iff, List.all_eq_true, mem_dedup]
+        refine ⟨?_, fun x hx => classify_other ((mem_othersOf xs x).1 hx).2⟩
+        intro he
+        have : ∀ y, y ∉ othersOf xs := fun y hy => by
+          have := (mem_dedup (othersOf xs) y).2 hy
+          rw [he] at this; simp at this
+        apply hne
+        simp only [List.isEmpty_iff]
+        exact List.eq_nil_iff_forall_not_mem.2 this
+
 end Arrai.C05
